@@ -75,12 +75,16 @@ func (s *Store[H]) deleteSingle(
 	if err := s.ds.Delete(ctx, hashKey(hash)); err != nil {
 		return fmt.Errorf("delete hash key (%X): %w", hash, err)
 	}
+	// From here on the header is gone from the datastore, so it must not be served from the caches anymore,
+	// even if removing its height index entry below fails. Otherwise, Head or Tail can be put (back) on
+	// a header that exists only in memory, leaving a gap in the chain after a restart.
+	s.cache.Remove(hash.String())
+	s.heightIndex.cache.Remove(height)
+
 	if err := s.ds.Delete(ctx, heightKey(height)); err != nil {
 		return fmt.Errorf("delete height key (%d): %w", height, err)
 	}
 
-	s.cache.Remove(hash.String())
-	s.heightIndex.cache.Remove(height)
 	s.pending.DeleteRange(height, height+1)
 	return nil
 }
